@@ -524,12 +524,12 @@ def c07_correspondence(ctx, corr):
 
 
 # Input sets of the exhaustive decode -> encode -> decode pass: (tag, address, tail, offset of the 16-bit pattern, k).
-# quick: the first 2 instructions of every shape per 8192 patterns; thorough: every distinct instruction, and a
+# quick: the first instruction of every shape per 8192 patterns; thorough: every distinct instruction, and a
 # second tail.  (quick is a subset of thorough: same patterns, k-limited)
 def c07_configs(thorough):
     if thorough:
         return [("", A0, TAIL, 0, 0), ("@2", A0, TAIL, 2, 0), ("@t2", A0, TAIL2, 0, 0)]
-    return [("", A0, TAIL, 0, 2), ("@2", A0, TAIL, 2, 2)]
+    return [("", A0, TAIL, 0, 1), ("@2", A0, TAIL, 2, 1)]
 
 
 RT_CHUNK = 8192
